@@ -37,6 +37,9 @@ var Shares = []Share{
 	{Name: "ifacemethod", Decls: "type R$u interface{ run(done chan bool) }\ntype W$u struct{ o *Obj }\n\nfunc (w *W$u) run(done chan bool) {\n\tg$u := w.o\n$G\tdone <- true\n}", Setup: "var r$u R$u = &W$u{o: o$u}\ngo r$u.run(done$u)"},
 	{Name: "nested", Decls: "func inner$u(g$u *Obj) {\n$G}\n\nfunc outer$u(o *Obj, done chan bool) {\n\tinner$u(o)\n\tdone <- true\n}", Setup: "go outer$u(o$u, done$u)"},
 	{Name: "structcopy", Decls: "type Box$u struct{ o *Obj }\n\nfunc workerB$u(b Box$u, done chan bool) {\n\tg$u := b.o\n$G\tdone <- true\n}", Setup: "b$u := Box$u{o: o$u}\ngo workerB$u(b$u, done$u)"},
+	{Name: "calleefieldaddr", Decls: "type Mid$u struct{ inner Obj }\ntype Outer$u struct{ mid *Mid$u }\n\nfunc workerF$u(g$u *Obj, done chan bool) {\n$G\tdone <- true\n}\n\nfunc leakInner$u(o *Outer$u, done chan bool) {\n\tm := o.mid\n\tgo workerF$u(&m.inner, done)\n}",
+		Setup: "out$u := &Outer$u{mid: &Mid$u{inner: *o$u}}\nleakInner$u(out$u, done$u)\no$u = &out$u.mid.inner"},
+	{Name: "selectrecv", Setup: "in$u := make(chan *Obj, 1)\noutc$u := make(chan int)\ngo func(g$u *Obj) {\n\tin$u <- g$u\n\ttime.Sleep(time.Millisecond)\n$G\tdone$u <- true\n}(o$u)\nvar n$u *Obj\nselect {\ncase outc$u <- 1:\ncase n$u = <-in$u:\n}\no$u = n$u"},
 	{Name: "closurefield", Decls: "type T$u struct{ f func() }", Setup: "t$u := &T$u{}\nt$u.f = func() {\n\tg$u := o$u\n$G\tdone$u <- true\n}\ngo t$u.f()"},
 }
 
